@@ -16,7 +16,7 @@ from props import _c15_vk as VK
 ID = "C15"
 COQ_REQUIRE = "C15.Run"
 SHARD = 120
-CASE_TIMEOUT = 30
+CASE_TIMEOUT = 600
 RULE = ("one virtual process (child / non-child / gone-before-the-call) or 1-6 of them; the exit instant is placed before the "
         "call, exactly on / 10 us before / 10 us after a polling instant (instants 0, 1, 3, 7, ..., 511, 911, 1311... x 0.1 ms) "
         "and on / around the deadline, or never; timeouts None, 0, negative, on/around polling instants, 5 ms - 2 s; exit codes "
@@ -292,7 +292,9 @@ def judge(case, coq, impl):
     if _oof(coq["model"]):
         raise RuntimeError("model ran out of fuel on %r" % (case,))
     if isinstance(impl, dict) and impl.get("t") in ("Timeout", "WorkerDied"):
-        return Verdict("violation", "the call did not return within the harness limit (%s)" % impl.get("t"))
+        # wall-clock limit of the worker (machine load), not an answer of the implementation: an implementation
+        # that never returns is detected in virtual time (Hang after 4000 sleeps / 20000 kernel calls)
+        raise RuntimeError("worker wall-clock limit hit on %r" % (case,))
     if k == "wait":
         fails = VK.spec_ops(case, impl["ops"], strict=True, tol=0)
         if impl["float"] != "ok":
